@@ -1,6 +1,6 @@
 (* C07 — Failed tests are retried as configured: count, stop on success, backoff.
    Statements only; proofs are in Proofs/Backoff.v. Durations are N nanoseconds. *)
-From NextestModel Require Import Base.Str Model.Backoff Proofs.Backoff.
+From NextestModel Require Import Base.Str Model.Backoff Model.DelayWait Proofs.Backoff Proofs.DelayWait.
 Open Scope N_scope.
 
 (* The attempt loop of run_test_instance, for every pass/fail pattern [outcome], every policy
@@ -123,6 +123,35 @@ Theorem C07_cli_no_delay : forall n k, (k < N.to_nat n)%nat ->
 Proof. exact cli_no_delay_both. Qed.
 Print Assumptions C07_cli_no_delay.
 
+(* The wait between two attempts (handle_delay_between_attempts over a PausableSleep), for every
+   sequence of time steps, stop / continue / shutdown / cancel requests and info queries: the
+   wait expires -- and only then is the next attempt's RetryStarted sent on the normal path --
+   only after the whole delay has elapsed in *unpaused* time ... *)
+Theorem C07_not_sooner : forall delay evs,
+  wrun delay evs = Done Expired -> delay <= active_time false evs.
+Proof. exact not_sooner. Qed.
+Print Assumptions C07_not_sooner.
+
+(* ... it ends early only through a cancellation (after which the retry handshake is refused:
+   C07_no_retry_after_refusal) ... *)
+Theorem C07_cut_short_only_by_cancel : forall delay evs,
+  wrun delay evs = Done CutShort -> existsb is_cancel evs = true.
+Proof. exact cut_short_only_by_cancel. Qed.
+Print Assumptions C07_cut_short_only_by_cancel.
+
+(* ... and without a cancellation it does expire once the delay has elapsed in unpaused time;
+   with debounced Stop requests the PausableSleep never panics. *)
+Theorem C07_wait_expires : forall delay evs,
+  0 < delay -> stops_debounced false evs = true -> existsb is_cancel evs = false ->
+  delay <= active_time false evs -> wrun delay evs = Done Expired.
+Proof. exact expires. Qed.
+Print Assumptions C07_wait_expires.
+
+Theorem C07_wait_no_panic : forall delay evs,
+  stops_debounced false evs = true -> wrun delay evs <> WPanicked.
+Proof. exact no_panic. Qed.
+Print Assumptions C07_wait_no_panic.
+
 (* ---- non-vacuity and regression witnesses (closed computations) *)
 Example C07_ex_exp_delays :
   delays (Exponential 6 1000 false (Some 5000)) = [1000; 2000; 4000; 5000; 5000; 5000]
@@ -183,4 +212,15 @@ Example C07_ex_valid_policy :
   /\ valid_policy (Exponential 1 5 false (Some 0)) = false
   /\ valid_policy (Exponential 1 5 false (Some 4)) = false
   /\ valid_policy (Exponential 1 5 true (Some 5)) = true.
+Proof. repeat split; vm_compute; reflexivity. Qed.
+
+(* the wait: 100 ns delay; 60 ns pass, stop, 500 ns pass while stopped, continue, 39 ns: still
+   waiting; one more ns: expired. A cancellation cuts it short. *)
+Example C07_ex_wait :
+  wrun 100 [Tick 60; WStop; Tick 500; WContinue; Tick 39] = Waiting 1 false
+  /\ wrun 100 [Tick 60; WStop; Tick 500; WContinue; Tick 39; WQuery; Tick 1] = Done Expired
+  /\ active_time false [Tick 60; WStop; Tick 500; WContinue; Tick 39; WQuery; Tick 1] = 100
+  /\ wrun 100 [Tick 60; WOtherCancel; Tick 500] = Done CutShort
+  /\ wrun 100 [WStop; WShutdown] = Done CutShort
+  /\ wrun 100 [WStop; WStop] = WPanicked /\ stops_debounced false [WStop; WStop] = false.
 Proof. repeat split; vm_compute; reflexivity. Qed.
